@@ -1,0 +1,18 @@
+//go:build verif
+
+package safesearch
+
+import (
+	"net/netip"
+
+	"github.com/miekg/dns"
+)
+
+// VerifC13Match returns true if the rule list of the filter has a rule
+// matching an A request for host.
+func (f *Filter) VerifC13Match(host string) (ok bool) {
+	return f.flt.DNSResult(netip.Addr{}, "", host, dns.TypeA, false) != nil
+}
+
+// VerifC13RulesCount returns the number of rules of the filter.
+func (f *Filter) VerifC13RulesCount() (n int) { return f.flt.RulesCount() }
